@@ -1,4 +1,5 @@
-(* C20Run.v — executable comparison of Conv.v with what conversion.ConvertFrom did.
+(* C20Run.v — executable comparison of Conv.v with what conversion.ConvertFrom, conversion.DecodeFrom
+   and bus.Proxy.Call2 did.
    Evaluated by vm_compute on case files written by the Go harness (qv C20). *)
 From Coq Require Import List ZArith NArith Bool String.
 From QV Require Import Conv Facts.
@@ -11,7 +12,9 @@ Import ListNotations.
 Record ccase := { c_from : gotype; c_to : gotype; c_val : val; c_compat : bool; c_other : bool; c_res : option val;
                   (* None: the target was freshly allocated.  Some old: the target held `old` (deep
                      structure, slices with their length and whole backing array) when ConvertFrom was called *)
-                  c_old : option dval }.
+                  c_old : option dval;
+                  (* the entry point the implementation was called through (Conv.entry) *)
+                  c_entry : entry }.
 
 (* equality of observed trees; maps are compared as finite maps (the harness lists entries sorted
    by key, the model in insertion order); the sign of a zero float key is not compared: Go keeps
@@ -32,22 +35,30 @@ Definition case_ok (c : cfg) (x : ccase) : bool :=
   Bool.eqb (compatb (c_from x) (c_to x)) (c_compat x) &&
   Bool.eqb (other_kind_reached (c_to x) (c_from x) (c_val x)) (c_other x) &&
   has_typeb (c_from x) (c_val x) &&
-  match (match c_old x with
-         | None => convert c (c_from x) (c_to x) (c_val x)
-         | Some old => convert_onto c (c_from x) (c_to x) (c_val x) old
-         end), c_res x with
+  match enter (c_entry x) c (c_from x) (c_to x) (c_val x) (c_old x), c_res x with
   | COk v', Some o => val_equiv v' o
   | CErr, None => true
   | _, _ => false
   end &&
   (* the model of a fresh target is the model of a target holding zero values *)
   match c_old x with
-  | None => match convert_onto c (c_from x) (c_to x) (c_val x) (dzero (c_to x)), c_res x with
+  | None => match enter (c_entry x) c (c_from x) (c_to x) (c_val x) (Some (dzero (c_to x))), c_res x with
             | COk v', Some o => val_equiv v' o
             | CErr, None => true
             | _, _ => false
             end
   | Some _ => true
+  end &&
+  (* a reply read directly (same signature) is a conversion like any other: for compatible types
+     the conversion the model describes gives that very value (the harness only reads replies
+     directly into fresh variables) *)
+  match c_entry x with
+  | ECall2 => negb (same_sigb (c_from x) (c_to x) && compatb (c_from x) (c_to x)) ||
+              match convert c (c_from x) (c_to x) (c_val x), c_res x with
+              | COk v', Some o => val_equiv v' o
+              | _, _ => false
+              end
+  | _ => true
   end.
 
 Fixpoint bad_idx {A} (f : A -> bool) (l : list A) (i : nat) : list nat :=
